@@ -309,9 +309,10 @@ func (p *c08) outputsN(scen *gen.Scenario, seed int64, rot int, res *fw.Result, 
 					}
 				}()
 				st := rn.Src.Snapshot()
-				v, _ := run.EvaluateTemplate(t, func(flows.Event) {})
+				var errs []string
+				v, _ := run.EvaluateTemplate(t, func(e flows.Event) { errs = append(errs, eventText(e)) })
 				rn.Src.Restore(st)
-				add(fmt.Sprintf("templates[%d]", i), v)
+				add(fmt.Sprintf("templates[%d]", i), []any{v, errs})
 			}()
 		}
 	}
@@ -413,6 +414,7 @@ var c08Templates = []string{
 	"@results", "@(json(results))", "@fields", "@(json(contact.fields))", "@contact.groups", "@(json(contact))", "@run", "@(json(run.results))", "@trigger.params", "@(json(trigger.params))",
 	"@(parse_json(\"{\\\"b\\\":1,\\\"a\\\":2,\\\"c\\\":{\\\"z\\\":1,\\\"y\\\":2}}\"))", "@(json(parse_json(\"{\\\"b\\\":1,\\\"a\\\":2}\")))", "@(parse_json(\"{\\\"k\\\":1,\\\"K\\\":2}\").k)", "@(parse_json(\"{\\\"K\\\":1,\\\"k\\\":2}\").K)",
 	"@(keys(parse_json(\"{\\\"b\\\":1,\\\"a\\\":2,\\\"C\\\":3}\")))", "@(object(\"b\", 1, \"a\", 2))", "@(format(object(\"b\", 1, \"a\", 2)))", "@(foreach_value(object(\"b\", 1, \"a\", 2), (k, v) => k & v))", "@(extract_object(contact, \"name\", \"language\"))",
+	"@(parse_datetime(\"9999-12-31T23:59:59.999999Z\", \"tt:mm:ss.fffffffff\"))", "@(parse_time(\"x\", \"tt:mm\"))", "@(parse_datetime(\"2020-01-01 ab:30\", \"YYYY-MM-DD t:mm\"))", "@(parse_time(\"25:61\", \"hh:mm aa\"))", "@(parse_datetime(\"x\", \"DD-MM-YYYY\"))",
 	"@webhook", "@(json(webhook))", "@webhook.headers", "@legacy_extra", "@(json(legacy_extra))", "@urns", "@(json(urns))", "@globals", "@(json(globals))", "@parent", "@child", "@node",
 }
 
@@ -507,11 +509,16 @@ func (p *c08) Run(c fw.Case) fw.Result {
 		if err != nil {
 			break
 		}
-		if what, path := diffOutputs(first, again); what != "" {
-			kind := "value"
-			res.Violate("nondeterminism|in-process|"+what+"|"+stripIndices(path)+"|"+kind, fmt.Sprintf("two executions of the same case in one process differ: %s at %s", what, path),
+		// differences other than the known nondeterministic error text of a dependency are judged on normalised outputs,
+		// so that the known one cannot mask them; the known one is then reported from the raw outputs
+		if what, path := diffOutputs(normAll(first), normAll(again)); what != "" {
+			res.Violate("nondeterminism|in-process|"+what+"|"+stripIndices(path)+"|value", fmt.Sprintf("two executions of the same case in one process differ: %s at %s", what, path),
 				witnessOf(scen, map[string]any{"output": what, "path": path, "repetition": rep, "first": pickOutput(first, what), "again": pickOutput(again, what)}))
 			break
+		}
+		if what, path := diffOutputs(first, again); what == "error-text" {
+			res.Violate("nondeterminism|error-text|"+path, "the text of an error differs between two executions of the same case: "+path,
+				witnessOf(scen, map[string]any{"repetition": rep, "first": firstDiffPair(first, again)}))
 		}
 	}
 	// canaries
@@ -531,7 +538,7 @@ func (p *c08) Run(c fw.Case) fw.Result {
 			}
 		}
 	}
-	res.Digest = digest(first)
+	res.Digest = digest(normAll(first))
 	if res.NonTrivial {
 		res.Sample = map[string]any{"graph": graphShape(scen), "outputs": len(first), "map_sites": sites}
 	}
@@ -551,6 +558,9 @@ func diffOutputs(a, b []string) (string, string) {
 			if la != lb {
 				return "output-sequence", la + " vs " + lb
 			}
+			if normKnownNondet(va) == normKnownNondet(vb) {
+				return "error-text", "gocommon-dates-parseError-layout-sequence"
+			}
 			path := firstJSONDiff(va, vb)
 			// is it a pure reordering?
 			if sortedChars(va) == sortedChars(vb) {
@@ -563,6 +573,23 @@ func diffOutputs(a, b []string) (string, string) {
 		return "output-sequence", "length"
 	}
 	return "", ""
+}
+
+func normAll(xs []string) []string {
+	out := make([]string, len(xs))
+	for i, o := range xs {
+		out[i] = normKnownNondet(o)
+	}
+	return out
+}
+
+func firstDiffPair(a, b []string) []string {
+	for i := 0; i < len(a) && i < len(b); i++ {
+		if a[i] != b[i] {
+			return []string{trunc(a[i], 1500), trunc(b[i], 1500)}
+		}
+	}
+	return nil
 }
 
 func sortedChars(s string) string {
